@@ -245,7 +245,7 @@ func fixRanges(req M) {
 func genC03(t *rapid.T) ReqCase {
 	g := G{t}
 	m := g.Pick(utilityMethods...)
-	o := GenOpts{Methods: []string{m}, MaxBiases: 2, ValueMode: -1, Superfluous: true, BigTiers: true}
+	o := GenOpts{Methods: []string{m}, MaxBiases: 2, ValueMode: -1, Superfluous: true, BigTiers: true, ValueScales: true}
 	if m == "choquetIntegral" {
 		o.Biases = []string{"criteriaOmission", "preferenceReversal", "fatigue", "anchoring"}
 	}
